@@ -428,7 +428,9 @@ def run(col):
                 "in L, g, mol, U; dilute; fill_to; create_solution; create_solution_from; constructor) and (c) RecipeStep.instructions "
                 "and container instructions for the last step of every program of <= 3 (quick) / 4 (thorough) steps: every token "
                 "'<number> <unit>[ of <name>]' must equal, at its displayed decimals, a true amount of that operation (changes and "
-                "amounts of each substance, totals, capacity, requested values). Non-trivial = distinct (family, operation, had-token)")
+                "amounts of each substance, totals, capacity, requested values); (d) recipe create_solution steps over every ordered "
+                "pair / triple of three solutes with per-solute concentrations or quantities: the text lists the names in the order "
+                "of the values. Non-trivial = distinct (family, operation, had-token)")
     col.assumptions += ["a line without any amount token is not judged (counted as unparsed)",
                         "the candidate set of true amounts is deliberately generous: only factor-level errors are reported"]
     v, n = rescaling(pp)
@@ -450,6 +452,11 @@ def run(col):
             tokens += ntok
             classes.add(('recipe',) + cls)
         total += len(programs)
+        for mc in multi_solute_cases():
+            vs, cls = _multi_solute(mc, vidx)
+            col.add(vs)
+            classes.add(('multi-solute', cls[0], len(mc['solutes']), 'concentration' in mc['kw']))
+            total += 1
         col.cov.setdefault('valuations', []).append({'valuation': vidx, 'direct_operations': len(acts), 'programs': len(programs)})
     col.count('transitions', total)
     col.count('traces', total)
@@ -461,8 +468,50 @@ def run(col):
     col.sample({'text': "Dilute 'nacl' in 'A' to 0.1 M by adding 9.8 mL of 'water'.", 'tokens': ["9.8 mL of 'water'"]})
 
 
+# ---- (d) step texts that list several solutes: the i-th name goes with the i-th stated value ---------------------------------
+def multi_solute_cases():
+    import itertools
+    concs = ['0.5 M', '0.1 M', '0.02 M']
+    qtys = ['40 mg', '15 mg', '70 mg']
+    for k in (2, 3):
+        for solutes in itertools.permutations(('nacl', 'dmso', 'na2so4'), k):
+            yield {'solutes': list(solutes), 'kw': {'concentration': concs[:k], 'total_quantity': '10 mL'}}
+            yield {'solutes': list(solutes), 'kw': {'quantity': qtys[:k], 'total_quantity': '10 mL'}}
+
+
+def _multi_solute(mc, vidx):
+    """The step's text names the solutes and prints the per-solute values as given: a name at position i of the text's list of
+    names must be the solute whose value stands at position i (the made solution decides which solute got which value)."""
+    pp = _G['pp']
+    subs = e1.substances(pp, vidx)
+    sol = [subs[n] for n in mc['solutes']]
+    case = {'family': 'multi-solute', 'vidx': vidx, 'mc': mc}
+    call = f"recipe.create_solution([{', '.join(mc['solutes'])}], water, 'x', {mc['kw']})"
+    r = pp.Recipe()
+    try:
+        r.create_solution(sol, subs['water'], 'x', **mc['kw'])
+        made = r.bake()['x']
+    except Exception as e:  # noqa: whether the request is accepted is C05's matter
+        return [], ('refused', type(e).__name__)
+    text = r.steps[0].instructions
+    pos = {n: text.find(n) for n in mc['solutes']}
+    values = mc['kw'].get('concentration') or mc['kw'].get('quantity')
+    vpos = [text.find(v) for v in values]
+    if min(pos.values()) < 0 or min(vpos) < 0 or sorted(vpos) != vpos:
+        return [], ('unparsed',)            # the text does not list names and values this way: not judged
+    order = sorted(mc['solutes'], key=lambda n: pos[n])
+    if order != mc['solutes']:
+        return [V("instructions | value-attributed-to-wrong-solute | RecipeStep,create_solution,multi-solute",
+                  f"{call}: the step's text {text!r} lists the solutes as {order} next to the values {values} given for "
+                  f"{mc['solutes']}", case, mc['solutes'], order)], ('judged', len(sol))
+    return [], ('judged', len(sol))
+
+
 def replay(case):
     pp = env.load()
+    if case['family'] == 'multi-solute':
+        _G.update(pp=pp)
+        return _multi_solute(case['mc'], case['vidx'])[0]
     if case['family'] == 'rescale':
         return rescaling(pp)[0]
     if case['family'] == 'direct':
